@@ -406,7 +406,14 @@ def run(spec, ctx):
             # the twin need not satisfy the rest of the pattern (the existential condition de-duplicates on its own) and
             # may be held by the same element (two boxes of one shelf with equal part lists)
             entries = [e for o in dom if isinstance(o, root_T) for e in any_entries(o, pat)]
-            if all(has_twin(id(o), entries) for o in missing_problems) and all(has_twin(i, entries) for i in lost_ids):
+            def lost_part_explained(part_id):
+                # the part hangs below a holder whose existential collection has a twin, or it is such a holder itself
+                if has_twin(part_id, entries):
+                    return True
+                roots = [o for o in exp if any(part_id in al[1] for al in allowed[id(o)])]
+                return any(has_twin(id(o), entries) for o in roots)
+
+            if all(has_twin(id(o), entries) for o in missing_problems) and all(lost_part_explained(i) for i in lost_ids):
                 key = "match-any-collapses-equal-collections"
         C["fail:" + (key or "UNEXPLAINED")] += 1
         detail = extra_problems[:2] + [f"missing elements {[idn.get(id(o), '?') for o in missing_problems][:4]}"] * bool(missing_problems) + lost_parts[:2]
